@@ -11,6 +11,7 @@
 import AcbModel.Lemmas.FxFile
 import AcbModel.Props.C13
 import AcbModel.Lemmas.FxExamples
+import AcbModel.Lemmas.FxDateText
 namespace Acb
 open Fx
 
@@ -21,10 +22,20 @@ theorem C14_write_procedure_as_modelled :
     Gen.fxWriteProcSteps = "open_rates_csv_tmp_file_write" ∧ Gen.fxCacheTmpSuffix = ".tmp" := ⟨rfl, rfl⟩
 
 /-- **C14 (the cache file reads back what was written).** -/
-theorem C14_cachefile_roundtrip (dt : DateText) (hdt : dt.OK) (rows : List TextRow)
-    (hc : ∀ r ∈ rows, r.Clean) :
+theorem C14_cachefile_roundtrip (dt : DateText) (dom : Int → Prop) (hdt : dt.OK dom) (rows : List TextRow)
+    (hc : ∀ r ∈ rows, r.Clean) (hd : ∀ r ∈ rows, dom r.date) :
     parseFile dt (renderRows dt rows) = rows.filterMap TextRow.value? :=
-  cachefile_roundtrip dt hdt rows hc
+  cachefile_roundtrip dt hdt rows hc hd
+
+/-- **C14 (the `YYYY-MM-DD` date text of the real file satisfies the laws)**: for every day of the
+    years 0000-9999 the rendered date reads back as that day and contains neither `,` nor a newline. -/
+theorem C14_date_text_ok : civilDateText.OK CivilDom := civilDateText_ok
+
+/-- … so the real file format reads back what was written (rate texts without separators). -/
+theorem C14_real_cachefile_roundtrip (rows : List TextRow) (hc : ∀ r ∈ rows, r.Clean)
+    (hd : ∀ r ∈ rows, CivilDom r.date) :
+    parseFile civilDateText (renderRows civilDateText rows) = rows.filterMap TextRow.value? :=
+  cachefile_roundtrip civilDateText civilDateText_ok rows hc hd
 
 /-- **C14 (kill).**  Whenever the process is killed while writing a year — after any step, or inside
     the write at any byte offset, and whatever temp file an earlier crash left behind — the cache
@@ -56,9 +67,10 @@ def CrashView (files : Int → Option (List Char)) (y : Int) (tmp : Option File)
     is.  Then in the later run every look-up, whatever was looked up before, returns exactly what a
     loader without any cache returns; in particular a rate it returns is the rate published for
     that rate's day.  (The temp file is never read: it does not occur in the later run's cache.) -/
-theorem C14_crash_safe (dt : DateText) (hdt : dt.OK) (e : Env) (hc : e.cal.OK) (hwf : RemoteWF e)
+theorem C14_crash_safe (dt : DateText) (dom : Int → Prop) (hdt : dt.OK dom) (e : Env) (hc : e.cal.OK)
+    (hwf : RemoteWF e)
     (files : Int → Option (List Char)) (hfiles : CacheOK e (storeOfFiles dt files))
-    (y : Int) (rows : List TextRow) (hclean : ∀ r ∈ rows, r.Clean)
+    (y : Int) (rows : List TextRow) (hclean : ∀ r ∈ rows, r.Clean) (hdom : ∀ r ∈ rows, dom r.date)
     (htrue : Truthful e y (rows.filterMap TextRow.value?)) (hav : (e.remote y).isSome = true)
     (tmp : Option File) (v : View) (hv : CrashView files y tmp (renderRows dt rows) v)
     (ds : List Int) :
@@ -87,7 +99,7 @@ theorem C14_crash_safe (dt : DateText) (hdt : dt.OK) (e : Env) (hc : e.cal.OK) (
         exact hfiles y' rs (by simpa [storeOfFiles, upd] using hy')
       · rw [h] at hy'
         simp only [storeOfFiles, upd, if_true, Option.map_some, Option.some.injEq] at hy'
-        rw [cachefile_roundtrip dt hdt rows hclean] at hy'
+        rw [cachefile_roundtrip dt hdt rows hclean hdom] at hy'
         subst hy'
         exact ⟨htrue, hav⟩
     · exact hfiles y' rs (by simpa [storeOfFiles, upd, hne] using hy')
@@ -103,19 +115,34 @@ theorem C14_crash_safe (dt : DateText) (hdt : dt.OK) (e : Env) (hc : e.cal.OK) (
     rw [hr] at h
     exact (specRate_sound e d r h.symm).2.2.1
 
-/-- Non-vacuity of `C14_crash_safe`: an empty cache directory, the run of Jan 21, 2020 writing the
-    20 rows of its filled year, killed after 100 bytes of the 230-byte file (a crash state of the
-    write procedure), with a date text whose laws are proved (`tallyDateText_ok`).  All hypotheses
-    hold; the later run then answers Jan 9 with the published rate of Jan 8, having downloaded. -/
+/-- **C14 (crash safety, for the real file format)**: `C14_crash_safe` with the `YYYY-MM-DD` text. -/
+theorem C14_crash_safe_real_format (e : Env) (hc : e.cal.OK) (hwf : RemoteWF e)
+    (files : Int → Option (List Char)) (hfiles : CacheOK e (storeOfFiles civilDateText files))
+    (y : Int) (rows : List TextRow) (hclean : ∀ r ∈ rows, r.Clean) (hdom : ∀ r ∈ rows, CivilDom r.date)
+    (htrue : Truthful e y (rows.filterMap TextRow.value?)) (hav : (e.remote y).isSome = true)
+    (tmp : Option File) (v : View) (hv : CrashView files y tmp (renderRows civilDateText rows) v)
+    (ds : List Int) :
+    let after := St.init (storeOfFiles civilDateText (upd files y v.live))
+    (runLookups e after ds).1.map forget = ds.map (uncached e) ∧
+    ∀ d r, (getEffective e after d).1 = .ok r → pubOf e.cal e.remote r.date = some r.rate :=
+  C14_crash_safe civilDateText CivilDom civilDateText_ok e hc hwf files hfiles y rows hclean hdom htrue hav
+    tmp v hv ds
+
+/-- Non-vacuity of `C14_crash_safe_real_format`: an empty cache directory, the run of Jan 21, 2020
+    writing the 20 rows of its filled year (a 269-byte file `2020-01-01,0\n2020-01-02,1.3\n…`),
+    killed after 100 bytes — a crash state of the write procedure.  All hypotheses hold; the later
+    run then answers Jan 9 with the published rate of Jan 8 (after downloading). -/
 example :
-    let v : View := { live := none, tmp := some ((renderRows tallyDateText exRows).take 100) }
-    tallyDateText.OK ∧ exEnvB.cal.OK ∧ RemoteWF exEnvB ∧
-    CacheOK exEnvB (storeOfFiles tallyDateText fun _ => none) ∧
-    (∀ r ∈ exRows, r.Clean) ∧ Truthful exEnvB 2020 (exRows.filterMap TextRow.value?) ∧
-    CrashView (fun _ => none) 2020 none (renderRows tallyDateText exRows) v := by
-  refine ⟨tallyDateText_ok, civil_ok, exEnvB_wf, ?_, ?_, ?_, ?_⟩
+    let v : View := { live := none, tmp := some ((renderRows civilDateText exRows).take 100) }
+    exEnvB.cal.OK ∧ RemoteWF exEnvB ∧
+    CacheOK exEnvB (storeOfFiles civilDateText fun _ => none) ∧
+    (∀ r ∈ exRows, r.Clean) ∧ (∀ r ∈ exRows, CivilDom r.date) ∧
+    Truthful exEnvB 2020 (exRows.filterMap TextRow.value?) ∧
+    CrashView (fun _ => none) 2020 none (renderRows civilDateText exRows) v := by
+  refine ⟨civil_ok, exEnvB_wf, ?_, ?_, ?_, ?_, ?_⟩
   · intro y rows h; simp [storeOfFiles] at h
   · decide +kernel
+  · unfold CivilDom; decide +kernel
   · have h : exRows.filterMap TextRow.value? =
         fillUnknown civil exEnvB.today
           [⟨2458851, 13/10⟩, ⟨2458852, 131/100⟩, ⟨2458855, 7/5⟩, ⟨2458857, 141/100⟩] 2020 := by
@@ -123,10 +150,13 @@ example :
     rw [h]
     exact (fill_truthful_complete exEnvB civil_ok exEnvB_wf 2020 _ rfl).1
   · refine ⟨applyOp (applyOp { live := none, tmp := none } (.create .tmp))
-      (.append .tmp ((renderRows tallyDateText exRows).take 100)), ?_, Or.inl rfl⟩
+      (.append .tmp ((renderRows civilDateText exRows).take 100)), ?_, Or.inl rfl⟩
     decide +kernel
 
-example : (getEffective exEnvB (St.init (storeOfFiles tallyDateText (upd (fun _ => none) 2020 none))) 2458858).1 =
+example : String.ofList ((renderRows civilDateText exRows).take 29) = "2020-01-01,0\n2020-01-02,1.3\n2" := by
+  decide +kernel
+
+example : (getEffective exEnvB (St.init (storeOfFiles civilDateText (upd (fun _ => none) 2020 none))) 2458858).1 =
     .ok ⟨2458857, 141/100⟩ := by decide +kernel
 
 /-- **F-14, the defect that was repaired.**  The write procedure as it was (truncate
